@@ -37,7 +37,7 @@ REQUIRED_COUNTERS = [
     "c15.class.construct", "c15.construct.strided-buffer", "c15.class.alias", "c15.class.getitem1", "c15.class.getitem2",
     "c15.class.setitem1", "c15.class.setitem2", "c15.class.binop", "c15.class.inplace",
     "c15.class.unary", "c15.class.size", "c15.class.query", "c15.class.elementwise", "c15.class.overflow",
-    "c15.class.mutate-result", "c15.query.bool-special-contents", "c15.construct.from-buffer-with-earlier-export-alive", "c15.self-index.both", "c15.overflow.index2-beyond-int32", "c15.overflow.unary-beyond-int32", "c15.overflow.size-beyond-int32", "c15.overflow.rem-minus-one", "c15.overflow.numbers-only-mul", "c15.overflow.numbers-only-emax",
+    "c15.class.mutate-result", "c15.inplace.1x1-lhs-matrix-rhs", "c15.query.bool-special-contents", "c15.construct.from-buffer-with-earlier-export-alive", "c15.self-index.both", "c15.overflow.index2-beyond-int32", "c15.overflow.unary-beyond-int32", "c15.overflow.size-beyond-int32", "c15.overflow.rem-minus-one", "c15.overflow.numbers-only-mul", "c15.overflow.numbers-only-emax",
     "c15.index.int", "c15.index.negint", "c15.index.int-oor", "c15.index.slice", "c15.index.list",
     "c15.index.list-neg", "c15.index.list-oor", "c15.index.list-empty", "c15.index.imat", "c15.index.imat-neg",
     "c15.index.imat-oor",
@@ -472,6 +472,19 @@ def run(ctx):
                 src = "(%d.0, %d)" % (r.m, r.n)
             do("%s.size = %s" % (p, src), "size:" + kind)
 
+        def g_inplace_1x1():
+            """a 1x1 matrix on the left of += / -= with a matrix of another size on the right: the result would change the
+            size of the left operand, so the in-place form must be refused (and the operand left alone)"""
+            t = target()
+            tc = rtc(rng)
+            if do("%s = matrix(%r)" % (t, rnum(rng, tc)), "construct:1x1-for-inplace") != "ok":
+                return
+            m, n = rng.choice([(2, 1), (1, 3), (2, 2), (3, 1)])
+            otc = tc if rng.random() < 0.7 else rng.choice([x for x in "idz" if "idz".index(x) <= "idz".index(tc)])
+            op = rng.choice(["+=", "-="])
+            ctx.count("c15.inplace.1x1-lhs-matrix-rhs")
+            do("%s %s %s" % (t, op, lit(rng, otc, m, n)), "inplace:%s:1x1-lhs-larger-rhs" % op)
+
         def g_heldview():
             """construction from the buffer of a matrix while an earlier export of it is still alive, after a size change"""
             cands = [n for n in ls.live() if isinstance(ls.ref[n], Ref)]
@@ -639,7 +652,7 @@ def run(ctx):
                    "col": "%s[:, %s] = %d" % (t, t, big), "single": "%s[%s] = %d" % (t, t, big)}[form]
             do(src, "setitem2:self-index-" + form)
 
-        GENS = [(g_selfindex, 0.8), (g_heldview, 1.0), (g_construct, 14), (g_alias, 5), (lambda: g_getitem(False), 9), (lambda: g_getitem(True), 9),
+        GENS = [(g_selfindex, 0.8), (g_inplace_1x1, 0.8), (g_heldview, 1.0), (g_construct, 14), (g_alias, 5), (lambda: g_getitem(False), 9), (lambda: g_getitem(True), 9),
                 (lambda: g_setitem(False), 9), (lambda: g_setitem(True), 9), (g_binop, 16), (g_inplace, 12),
                 (g_unary, 6), (g_size, 4), (g_query, 6), (g_elementwise, 7), (g_overflow, 1.2)]
         tot = sum(w for _, w in GENS)
